@@ -55,6 +55,10 @@ type Gen struct {
 	// Pre: wrap nodes below the top level in Preprocess schemas written for the case's mode
 	Pre  bool
 	mode string
+	// Coercers: install named custom coercers (WithCoercer) on some primitives / slices
+	Coercers bool
+	// TopAll: custom and Preprocess schemas also at the top level
+	TopAll bool
 }
 
 func (g *Gen) id() int { g.nextID++; return g.nextID }
@@ -272,6 +276,28 @@ func upperFirst(k string) string {
 func (g *Gen) Node(depth int) *Node {
 	r := g.R
 	var kind string
+	if depth == 0 && g.TopAll && r.P(40, 100) {
+		if r.P(1, 2) {
+			return g.NodeOf("custom", 0)
+		}
+		// a Preprocess schema used directly: Parse(data F, dest *T) / Validate(*T)
+		n := g.NodeOf("prim", 0)
+		for n.PK != "int" && n.PK != "str" {
+			n = g.NodeOf("prim", 0)
+		}
+		w := &Node{Kind: "pre", Elem: n, PreID: g.id()}
+		if g.mode == "v" {
+			w.PreKind = rng.Pick(r, []string{"vid", "vinc", "vinc", "vfail"})
+			if w.PreKind == "vfail" {
+				w.PreMsg = rng.Pick(r, []string{"boom", "bad value", ""})
+			}
+		} else if n.PK == "int" {
+			w.PreKind = "atoi"
+		} else {
+			w.PreKind = "trim"
+		}
+		return w
+	}
 	if depth == 0 {
 		kind = rng.Pick(r, []string{"struct", "struct", "struct", "struct", "struct", "slice", "slice", "ptr", "prim", "prim"})
 	} else if depth >= 3 {
@@ -369,6 +395,16 @@ func (g *Gen) NodeOf(kind string, depth int) *Node {
 		}
 		n.Tests = g.primTests(n.PK)
 		n.Posts = g.posts(n)
+		if g.Coercers && r.P(12, 100) {
+			switch n.PK {
+			case "int":
+				n.Coercer = rng.Pick(r, []string{"plus100", "strlen"})
+			case "str":
+				n.Coercer = "sfx"
+			case "bool":
+				n.Coercer = "yn"
+			}
+		}
 	case "slice":
 		n.Elem = g.Node(depth + 1)
 		for n.Elem.Kind == "ptr" && n.Elem.Elem.Kind == "ptr" {
@@ -378,6 +414,9 @@ func (g *Gen) NodeOf(kind string, depth int) *Node {
 			o := g.topts()
 			n.Req = &o
 			n.ReqID = g.id()
+		}
+		if g.Coercers && r.P(12, 100) {
+			n.Coercer = "csv"
 		}
 		if n.Elem.Kind == "prim" && (n.Elem.PK == "int" || n.Elem.PK == "str" || n.Elem.PK == "bool") && r.P(20, 100) {
 			k := r.Range(0, 3)
@@ -427,6 +466,9 @@ func (g *Gen) NodeOf(kind string, depth int) *Node {
 		n.Elem = g.Node(depth + 1)
 		for n.Elem.Kind == "ptr" || n.Elem.Kind == "custom" {
 			n.Elem = g.Node(depth + 1)
+		}
+		if n.Elem.Kind == "prim" && n.Elem.Coercer != "" && r.P(1, 2) {
+			n.Elem.CoercerViaPtr = true
 		}
 		if !g.NearSuccess && r.P(40, 100) {
 			o := g.topts()
@@ -563,6 +605,9 @@ func (g *Gen) Input(n *Node) V {
 		if r.P(8, 100) {
 			return rng.Pick(r, []V{VList(VInt(1)), VObj(KV{"k", VInt(1)}), {K: "x", Desc: "chan"}, VStr("zz")})
 		}
+		if n.Coercer == "yn" && r.P(1, 2) {
+			return VStr(rng.Pick(r, []string{"y", "n", "y", "Y"}))
+		}
 		switch n.PK {
 		case "str":
 			return rng.Pick(r, []V{VStr(rng.Pick(r, strPool)), VStr(rng.Pick(r, strPool)), VStr(rng.Pick(r, strPool)), VInt(g.smallInt()), VBool(r.P(1, 2)), VF64(g.smallFloat())})
@@ -581,6 +626,9 @@ func (g *Gen) Input(n *Node) V {
 			return rng.Pick(r, []V{VTime(t), VTime(t), VInt(t.Unix()), {K: "i", IK: "i64", I: t.Unix()}, VStr(t.Format(time.RFC3339)), VStr("2024-05-06"), VStr("zz"), VF64(1)})
 		}
 	case "slice":
+		if n.Coercer == "csv" && r.P(1, 2) {
+			return VStr(rng.Pick(r, []string{"a,b", "1,2,3", "x", ",", "true,n,y", "10, 20"}))
+		}
 		if r.P(8, 100) {
 			// scalar gets boxed
 			if n.Elem.Kind == "prim" {
@@ -708,7 +756,7 @@ func collectLayouts(n *Node, set map[string]bool) {
 func (g *Gen) Case(id int) *Case {
 	r := g.R
 	c := &Case{ID: id}
-	if g.Pre {
+	if g.Pre || g.TopAll {
 		g.mode = "p"
 		if r.P(45, 100) {
 			g.mode = "v"
@@ -727,12 +775,16 @@ func (g *Gen) Case(id int) *Case {
 		g.Populated = saved
 		return c
 	}
-	if (!g.Pre && r.P(45, 100)) || (g.Pre && g.mode == "v") {
+	fixedMode := g.Pre || g.TopAll
+	if (!fixedMode && r.P(45, 100)) || (fixedMode && g.mode == "v") {
 		c.Mode = "v"
 		c.Dest = g.DestValue(c.Schema, 25)
 	} else {
 		c.Mode = "p"
 		c.Input = g.Input(c.Schema)
+		for c.Schema.Kind == "pre" && c.Input.K != "s" {
+			c.Input = g.Input(c.Schema) // PreprocessSchema[string, T].Parse takes a string
+		}
 		if r.P(25, 100) {
 			c.Dest = g.DestValue(c.Schema, 30)
 		} else {
